@@ -1,101 +1,190 @@
 #!/usr/bin/env python3
-"""Tiny translator step for C17 (DESIGN §2.2 (T)): extracts from external/barnes_hut_sne/{tsne,quadtree}.hpp
-the few tokens the t-SNE model is parametrised by and emits lean/TapkeeVerif/Gen/TsneOps.lean (data only):
+"""Translator step for C17, part 1 (DESIGN §2.2 (T)): the few operators and constants the t-SNE stage models are
+parametrised by → lean/TapkeeVerif/Gen/TsneOps.lean (data only).
 
-  * the assignment operator of `DD_map.noalias() <op> -2.0 * X_map.transpose() * X_map` in
-    computeSquaredEuclideanDistance  (`=` overwrites the norm terms, `+=` accumulates),
-  * the scalar factor of that product,
+Works on token streams of the function bodies (comments and whitespace irrelevant, `x++`/`++x`/`x += 1` identified,
+`std::sqrt`/`sqrt`, `NULL`/`nullptr` identified, names of locals captured and never assumed), so re-indenting, renaming a
+local or rewriting `while (c)` as `for (; c;)` does not disturb it.  What it extracts:
+
+  * the assignment operator of `<DD>.noalias() <op> -2.0 * <X>.transpose() * <X>` in computeSquaredEuclideanDistance,
   * QT_NO_DIMS / QT_NODE_CAPACITY of the quadtree,
-  * the iteration bound and tolerance literal of the perplexity bisection,
-  * the neighbour count expression `(int)(c * perplexity)` and the `K + 1` of the tree search,
-  * the divisor of the CSR symmetriser (`sym_val_P[i] /= 2.0`),
-  * whether `tsne::euclidean_distance` (vptree.hpp) returns `dd` or `sqrt(dd)`, whether the K-NN perplexity routine squares
-    the distances after the tree search, whether the max-normalisation is guarded against a zero maximum.
-Anything it does not recognise raises (reported by check.py as a broken tie)."""
+  * the iteration bound and the tolerance of the perplexity bisection (all copies must agree; the tolerance is emitted
+    as the exact value of the double the literal denotes — the specification `≤ 1e-4` is an obligation in Props/C17),
+  * the `K + 1` of the tree search, the neighbour multiplier of `run`,
+  * the divisor of the CSR symmetriser (`/= 2.0` or `*= 0.5`),
+  * whether `tsne::euclidean_distance` returns the accumulated squares or their square root, whether the K-NN routine
+    squares the distances after the search, whether the kernel rows use distances relative to the nearest one,
+    whether the max-normalisation of `run` is guarded.
+A shape it does not recognise raises `UnknownShape` (a broken tie of lower severity than a failing input)."""
 import os
 import re
+import sys
+from fractions import Fraction
+
+sys.path.insert(0, os.path.dirname(os.path.abspath(__file__)))
+from translate_tsne_run import ID, NUM, INC, UnknownShape, tokens  # noqa: E402
 
 
-class UnknownShape(ValueError):
-    pass
+def definitions(toks, name):
+    """token strings of the bodies of ALL definitions `name ( ... ) {` (overloads), in source order"""
+    out = []
+    i = 0
+    while i < len(toks) - 1:
+        if toks[i] == name and toks[i + 1] == "(":
+            depth, j = 0, i + 1
+            while j < len(toks):
+                if toks[j] == "(":
+                    depth += 1
+                elif toks[j] == ")":
+                    depth -= 1
+                    if depth == 0:
+                        break
+                j += 1
+            if j + 1 < len(toks) and toks[j + 1] == "{":
+                depth, k = 0, j + 1
+                while k < len(toks):
+                    if toks[k] == "{":
+                        depth += 1
+                    elif toks[k] == "}":
+                        depth -= 1
+                        if depth == 0:
+                            break
+                    k += 1
+                out.append(" ".join(toks[j + 2:k]))
+                i = k
+        i += 1
+    return out
 
 
-def one(pattern, text, what):
-    ms = re.findall(pattern, text, flags=re.S)
-    if len(ms) < 1:
+def all_same(values, what):
+    vs = sorted(set(values))
+    if not vs:
         raise UnknownShape("cannot find %s" % what)
-    if len(set(ms)) != 1:
-        raise UnknownShape("ambiguous %s: %r" % (what, sorted(set(ms))))
-    return ms[0]
+    if len(vs) != 1:
+        raise UnknownShape("the copies of %s disagree: %r" % (what, vs))
+    return vs[0]
+
+
+def norm(s):
+    return s.replace("std :: sqrt", "sqrt").replace("std :: exp", "exp").replace("std :: log", "log")
+
+
+def one_def(toks, name):
+    ds = definitions(toks, name)
+    if len(ds) != 1:
+        raise UnknownShape("expected exactly one definition of %s, found %d" % (name, len(ds)))
+    return norm(ds[0])
 
 
 def generate(repo):
-    ts = open(os.path.join(repo, "include/tapkee/external/barnes_hut_sne/tsne.hpp")).read()
-    qt = open(os.path.join(repo, "include/tapkee/external/barnes_hut_sne/quadtree.hpp")).read()
-    vp = open(os.path.join(repo, "include/tapkee/external/barnes_hut_sne/vptree.hpp")).read()
-    ts_nc = re.sub(r"//[^\n]*", "", ts)
-    vp_nc = re.sub(r"//[^\n]*", "", vp)
-    # tsne::euclidean_distance: `return dd;` (squared distance) or `return sqrt(dd);` (a metric)
-    ret = one(r"inline ScalarType euclidean_distance\(.*?\)\s*\{.*?return\s+([^;]+);\s*\}", vp_nc, "return of tsne::euclidean_distance")
-    ret = ret.replace(" ", "")
-    if ret not in ("dd", "sqrt(dd)", "std::sqrt(dd)"):
-        raise UnknownShape("unexpected return expression %r of tsne::euclidean_distance" % ret)
-    # the K-NN perplexity routine squares the returned distances after the search (or not)
-    sq = re.findall(r"tree->search\(obj_X\[n\],[^;]*;\s*for\s*\([^{};]*;[^{};]*;[^{};]*\)\s*distances\[m\]\s*\*=\s*distances\[m\]\s*;", ts_nc, flags=re.S)
-    # `X.array() /= X.maxCoeff();` guarded by `if (X.maxCoeff() > 0)` (or not)
-    guard = re.findall(r"if\s*\(\s*X\.maxCoeff\(\)\s*>\s*0(?:\.0?)?\s*\)\s*X\.array\(\)\s*/=\s*X\.maxCoeff\(\)\s*;", ts_nc)
-    # the Gaussian rows are evaluated on distances relative to the nearest one (or on the raw distances)
-    sh_dense = len(re.findall(r"exp\(-beta \* \(DD\[n \* N \+ m\] - min_DD\)\)", ts_nc))
-    sh_knn = len(re.findall(r"exp\(-beta \* \(distances\[m \+ 1\] - distances\[1\]\)\)", ts_nc))
-    raw_dense = len(re.findall(r"P\[n \* N \+ m\] = exp\(-beta \* DD\[n \* N \+ m\]\)", ts_nc))
-    raw_knn = len(re.findall(r"exp\(-beta \* distances\[m \+ 1\]\)", ts_nc))
-    if (sh_dense, sh_knn, raw_dense, raw_knn) == (1, 1, 0, 0):
-        shift = True
-    elif (sh_dense, sh_knn, raw_dense, raw_knn) == (0, 0, 1, 1):
-        shift = False
-    else:
-        raise UnknownShape("cannot classify the kernel rows (shifted/raw distances): %r" % ((sh_dense, sh_knn, raw_dense, raw_knn),))
-    if not re.search(r"X\.array\(\)\s*/=\s*X\.maxCoeff\(\)\s*;", ts_nc):
+    ts = tokens(open(os.path.join(repo, "include/tapkee/external/barnes_hut_sne/tsne.hpp")).read())
+    qt = " ".join(tokens(open(os.path.join(repo, "include/tapkee/external/barnes_hut_sne/quadtree.hpp")).read()))
+    vp = tokens(open(os.path.join(repo, "include/tapkee/external/barnes_hut_sne/vptree.hpp")).read())
+    # --- squared distances
+    sq = one_def(ts, "computeSquaredEuclideanDistance")
+    m = re.search(r"%s (?:\. noalias \( \) )?(=|\+=) - %s \* %s \. transpose \( \) \* %s ;" % (ID, NUM, ID, ID), sq)
+    if not m:
+        raise UnknownShape("cannot find the Gram statement of computeSquaredEuclideanDistance")
+    op, factor = m.group(2), Fraction(m.group(3))
+    if factor != 2 or m.group(4) != m.group(5):
+        raise UnknownShape("the Gram statement is not `-2 * Xᵀ * X`")
+    # --- quadtree constants
+    m1 = re.search(r"static const int QT_NO_DIMS = (\d+) ;", qt)
+    m2 = re.search(r"static const int QT_NODE_CAPACITY = (\d+) ;", qt)
+    if not (m1 and m2):
+        raise UnknownShape("cannot find QT_NO_DIMS / QT_NODE_CAPACITY")
+    nodims, cap = int(m1.group(1)), int(m2.group(1))
+    # --- perplexity routines
+    gps = [norm(b) for b in definitions(ts, "computeGaussianPerplexity")]
+    if len(gps) < 2:
+        raise UnknownShape("expected the dense and the K-NN overload of computeGaussianPerplexity")
+    iters, tols = [], []
+    for b in gps:
+        for m in re.finditer(r"while \( ! %s && %s < %s \)" % (ID, ID, NUM), b):
+            iters.append(int(m.group(3)))
+        for m in re.finditer(r"for \( [^;()]*; ! %s && %s < %s ;" % (ID, ID, NUM), b):
+            iters.append(int(m.group(3)))
+        for m in re.finditer(r"if \( %s < %s && - \1 < \2 \)" % (ID, ID), b):
+            tol_id = m.group(2)
+            d = re.search(r"(?:^| |,)%s = %s (?:,|;)" % (re.escape(tol_id), NUM), b)
+            if not d:
+                raise UnknownShape("no initialiser for the bisection tolerance %s" % tol_id)
+            tols.append(d.group(1))
+    iters_v = all_same(iters, "the bisection iteration bound")
+    tol_lit = all_same([repr(float(t)) for t in tols], "the bisection tolerance")
+    tol_num, tol_den = float(tol_lit).as_integer_ratio()
+    knn = [b for b in gps if "-> search (" in b]
+    if len(knn) != 1:
+        raise UnknownShape("cannot identify the K-NN overload of computeGaussianPerplexity")
+    knn = knn[0]
+    m = re.search(r"%s -> search \( %s \[ %s \] , %s \+ (\d+) , & %s , & %s \) ;" % (ID, ID, ID, ID, ID, ID), knn)
+    if not m:
+        raise UnknownShape("cannot find the tree search call")
+    kplus, dist_id = int(m.group(5)), m.group(7)
+    squared_after = re.search(r"\) %s \[ %s \] \*= %s \[ \1 \] ;" % (re.escape(dist_id), ID, re.escape(dist_id)), knn) is not None
+    # kernel rows: shifted or raw distances, in the two overloads `run` calls (the first dense one and the K-NN one)
+    dense = [b for b in gps if "-> search (" not in b]
+    sh = lambda b: len(re.findall(r"exp \( - %s \* \( [^;]*? - %s(?: \[ [^\]]* \])? \) \)" % (ID, ID), b))
+    raw = lambda b: len(re.findall(r"exp \( - %s \* %s \[ [^\]]* \] \)" % (ID, ID), b))
+    flags = set()
+    for b in (dense[0], knn):
+        if sh(b) >= 1 and raw(b) == 0:
+            flags.add(True)
+        elif sh(b) == 0 and raw(b) >= 1:
+            flags.add(False)
+        else:
+            raise UnknownShape("cannot classify a kernel row (shifted/raw distances): %d shifted, %d raw" % (sh(b), raw(b)))
+    if len(flags) != 1:
+        raise UnknownShape("the dense and the K-NN routine disagree on shifting the distances")
+    shift = flags.pop()
+    # --- run: neighbour multiplier and guard
+    run = one_def(ts, "run")
+    m = re.search(r"\( int \) \( %s \* %s \) \) ;" % (NUM, ID), run)
+    if not m:
+        raise UnknownShape("cannot find the neighbour count expression of run")
+    kmult = Fraction(m.group(1))
+    if kmult.denominator != 1:
+        raise UnknownShape("non-integer neighbour multiplier %s" % kmult)
+    if not re.search(r"%s \. array \( \) /= \1 \. maxCoeff \( \) ;" % ID, run):
         raise UnknownShape("cannot find the max-normalisation statement")
-    op, factor = one(r"DD_map(?:\.noalias\(\))?\s*(\+=|-=|=)\s*(-?[\d.]+)\s*\*\s*X_map\.transpose\(\)\s*\*\s*X_map\s*;", ts_nc,
-                     "the DD_map product statement")
-    if op not in ("=", "+="):
-        raise UnknownShape("unexpected operator %r in the DD_map statement" % op)
-    if float(factor) != -2.0:
-        raise UnknownShape("unexpected factor %r in the DD_map statement" % factor)
-    nodims = int(one(r"static const int QT_NO_DIMS\s*=\s*(\d+)\s*;", qt, "QT_NO_DIMS"))
-    cap = int(one(r"static const int QT_NODE_CAPACITY\s*=\s*(\d+)\s*;", qt, "QT_NODE_CAPACITY"))
-    iters = int(one(r"while\s*\(!found\s*&&\s*iter\s*<\s*(\d+)\)", ts_nc, "bisection iteration bound"))
-    tol = one(r"ScalarType tol\s*=\s*([\de.+-]+)\s*;", ts_nc, "bisection tolerance")
-    if float(tol) != 1e-5:
-        raise UnknownShape("unexpected bisection tolerance %r" % tol)
-    kmult = one(r"perplexity,\s*\(int\)\s*\(\s*(\d+)\s*\*\s*perplexity\s*\)\s*\)", ts_nc, "neighbour count expression")
-    kplus = one(r"tree->search\(obj_X\[n\],\s*K\s*\+\s*(\d+)\s*,", ts_nc, "K + 1 of the tree search")
-    dop, dnum = one(r"sym_val_P\[i\]\s*(/=|\*=)\s*([\d.]+)\s*;", ts_nc, "divisor of the CSR symmetriser")
-    div = float(dnum) if dop == "/=" else (1.0 / float(dnum) if float(dnum) != 0 else 0.0)   # `*= 0.5` is `/= 2.0`
-    if div != float(int(div)) or div < 1:
+    guard = re.search(r"if \( %s \. maxCoeff \( \) > 0 \) \1 \. array \( \) /= \1 \. maxCoeff \( \) ;" % ID, run) is not None
+    # --- CSR symmetriser divisor: the halving loop
+    sym = one_def(ts, "symmetrizeMatrix")
+    ms = re.findall(r"for \( int %s = 0 ; \1 < %s ; %s \) %s \[ \1 \] (/=|\*=) %s ;" % (ID, ID, INC(r"\1"), ID, NUM), sym)
+    if len(ms) != 1:
+        raise UnknownShape("cannot find the halving loop of symmetrizeMatrix")
+    dop, dnum = ms[0][3], Fraction(ms[0][4])
+    div = dnum if dop == "/=" else (1 / dnum if dnum != 0 else Fraction(0))
+    if div.denominator != 1 or div < 1:
         raise UnknownShape("symmetriser scaling %s %s is not a division by a positive integer" % (dop, dnum))
+    # --- the distance handed to the VP-tree
+    ed = one_def(vp, "euclidean_distance")
+    m = re.search(r"ScalarType %s = %s ; for .* \1 \+= .* ; return (sqrt \( \1 \)|\1) ;" % (ID, NUM), ed)
+    if not m:
+        raise UnknownShape("unexpected shape of tsne::euclidean_distance")
+    metric = m.group(3).startswith("sqrt")
     lines = [
-        "/- GENERATED by tools/translate_tsne.py from include/tapkee/external/barnes_hut_sne/{tsne,quadtree}.hpp.",
-        "   Do not edit; regenerated on every check run.",
-        "   source: DD_map.noalias() %s %s * X_map.transpose() * X_map -/" % (op, factor),
+        "/- GENERATED by tools/translate_tsne.py from include/tapkee/external/barnes_hut_sne/{tsne,quadtree,vptree}.hpp.",
+        "   Do not edit; regenerated on every check run. -/",
         "namespace TapkeeVerif.Gen.TsneOps",
         "",
         "/-- `true`: the Gram term is *added* to `dataSums[n] + dataSums[m]` (`+=`); `false`: it overwrites it (`=`) -/",
         "def ddAccumulate : Bool := %s" % ("true" if op == "+=" else "false"),
         "def qtNoDims : Nat := %d" % nodims,
         "def qtNodeCapacity : Nat := %d" % cap,
-        "def bisectIters : Nat := %d" % iters,
+        "def bisectIters : Nat := %d" % iters_v,
+        "/-- the tolerance of the bisection: the exact value (numerator, denominator) of the double its literal denotes -/",
+        "def bisectTol : Nat × Nat := (%d, %d)" % (tol_num, tol_den),
         "/-- `K = (int)(kMult * perplexity)` -/",
-        "def kMult : Nat := %s" % kmult,
+        "def kMult : Nat := %d" % int(kmult),
         "/-- the tree search asks for `K + kPlus` results -/",
-        "def kPlus : Nat := %s" % kplus,
+        "def kPlus : Nat := %d" % kplus,
         "/-- `sym_val_P[i] /= symDivisor` -/",
         "def symDivisor : Nat := %d" % int(div),
         "/-- `tsne::euclidean_distance` returns `sqrt(dd)` (`true`) or the squared distance `dd` (`false`) -/",
-        "def vpMetric : Bool := %s" % ("false" if ret == "dd" else "true"),
+        "def vpMetric : Bool := %s" % ("true" if metric else "false"),
         "/-- the K-NN perplexity routine squares the distances returned by the tree search -/",
-        "def squareAfterSearch : Bool := %s" % ("true" if sq else "false"),
+        "def squareAfterSearch : Bool := %s" % ("true" if squared_after else "false"),
         "/-- `X /= X.maxCoeff()` is guarded by `if (X.maxCoeff() > 0)` -/",
         "def maxGuard : Bool := %s" % ("true" if guard else "false"),
         "/-- the Gaussian rows use `d_m - d_nearest` (dense: `min_DD` over the other samples; K-NN: `distances[1]`) -/",
@@ -108,5 +197,4 @@ def generate(repo):
 
 
 if __name__ == "__main__":
-    import sys
     print(generate(sys.argv[1] if len(sys.argv) > 1 else "/repo"))
